@@ -95,6 +95,17 @@ class Ownership:
                 break
 
     # ---- per-site analysis
+    def _library_entry(self, fn, callee):
+        """an indirect call through a member of a back end's descriptor (`xdesc->ssencode(...)`, `desc->ec_encode_data(...)`): an
+        entry point of the external coding library bound with dlsym.  These compute on the buffers they are handed; they neither
+        free nor keep the caller's pointer tables"""
+        from .vflow import access_path, fields_in_path
+        d = fn.defs.get(callee)
+        if d is None or d.op != 'load':
+            return False
+        fl = fields_in_path(access_path(self.prog, fn, d.ops[0])[1])
+        return bool(fl) and fl[-1][0].endswith('_descriptor')
+
     def analyse_site(self, fn, site, kind, slot):
         """-> list of reports (kind, site, at_ins, detail)"""
         if kind == 'slot':
@@ -177,7 +188,7 @@ class Ownership:
                             if ai in self.frees.get(c, ()):
                                 return 'FREE', c
                         for c in cs or [ins.callee]:
-                            if c in NOCAPTURE:
+                            if c in NOCAPTURE or ((c.startswith('%') or c.startswith('ext:')) and (ins.callee or '').startswith('%') and self._library_entry(fn, ins.callee)):
                                 continue
                             if c in self.fns:
                                 if ai in self.escapes.get(c, ()):
